@@ -624,5 +624,74 @@ fn main() {
             run_axis(c, lx)
         },
     );
+    // weights that are a lane of the matrix itself (a row as the weights of the columns, a column as the
+    // weights of the rows, a lane as its own weights): data and weights start at the same address or overlap
+    rep.run_sub(
+        "axis-forms-with-aliasing-weights",
+        "every 3x3 matrix over {0.5, 1, 2} (f64) / {1, 2, 3} (i64), standard and column-major x axis x weights = row k / column k of the matrix itself (k = 0, 1, 2; crossing lanes and the lane itself): every element of weighted_sum_axis / weighted_mean_axis / weighted_var_axis / weighted_std_axis (ddof 0, 1) equals the whole-array routine on owned copies of the lane and the weights and on the lane view with the same weights view (integers exactly, floats as the same number)",
+        sequences(9, 3),
+        |digits, lx| {
+            lx.nontrivial(digits.iter().any(|&d| d != digits[0]));
+            lx.single(|lx| {
+                let mut obs: Vec<u64> = Vec::new();
+                const VF: [f64; 3] = [0.5, 1.0, 2.0];
+                for colmajor in [false, true] {
+                    let mf = if colmajor { Array2::from_shape_vec((3, 3).f(), digits.iter().map(|&d| VF[d as usize]).collect()).unwrap() } else { Array2::from_shape_vec((3, 3), digits.iter().map(|&d| VF[d as usize]).collect()).unwrap() };
+                    let mi = mf.mapv(|x| (x * 2.0) as i64);
+                    for axis in 0..2usize {
+                        for wsel in 0..6usize {
+                            // 0..3: row k, 3..6: column k
+                            let (wf, wi) = if wsel < 3 { (mf.row(wsel), mi.row(wsel)) } else { (mf.column(wsel - 3), mi.column(wsel - 3)) };
+                            let (wfo, wio) = (Array1::from(wf.to_vec()), Array1::from(wi.to_vec()));
+                            let what = format!("{} {} of the {} matrix as weights along axis {}", if wsel < 3 { "row" } else { "column" }, wsel % 3, if colmajor { "column-major" } else { "standard" }, axis);
+                            let (vmi, vmf) = (mi.view(), mf.view());
+                            match guarded(|| (vmi.weighted_sum_axis(Axis(axis), &wi), vmi.weighted_mean_axis(Axis(axis), &wi))) {
+                                Ok((Ok(rs), Ok(rm))) => {
+                                    for j in 0..3usize {
+                                        let la = Array1::from(mi.index_axis(Axis(1 - axis), j).to_vec());
+                                        let (s1, m1) = (la.weighted_sum(&wio).unwrap(), la.weighted_mean(&wio).unwrap());
+                                        lx.check(rs.len() == 3 && rs[j] == s1, "C18/int-weighted-sum-axis-vs-lane", || format!("{}: weighted_sum_axis = {:?} but weighted_sum of lane {} {:?} with {:?} = {}", what, rs, j, la, wio, s1));
+                                        lx.check(rm.len() == 3 && rm[j] == m1, "C18/int-weighted-mean-axis-vs-lane", || format!("{}: weighted_mean_axis = {:?} but weighted_mean of lane {} {:?} with {:?} = {}", what, rm, j, la, wio, m1));
+                                        // ... and applied to the lane as it lies in the matrix, with the very same weights view
+                                        let lv = vmi.index_axis(Axis(1 - axis), j);
+                                        match guarded(|| (lv.weighted_sum(&wi), lv.weighted_mean(&wi))) {
+                                            Ok((Ok(s2), Ok(m2))) => { lx.check(rs.len() == 3 && rm.len() == 3 && rs[j] == s2 && rm[j] == m2, "C18/int-weighted-sum-axis-vs-lane", || format!("{}: weighted_sum_axis / weighted_mean_axis = {:?} / {:?} but the whole-array routines on lane {} (a view of the matrix, {:?}) with the same weights view {:?} give {} / {}", what, rs, rm, j, la, wio, s2, m2)); }
+                                            other => lx.fail("C18/axis-failed", || format!("{}: whole-array routines on lane view {} failed: {:?}", what, j, other)),
+                                        }
+                                        obs.push(s1 as u64);
+                                    }
+                                }
+                                other => lx.fail("C18/axis-failed", || format!("{}: integer axis forms failed: {:?}", what, other.map(|(a, b)| (a.map(|_| ()), b.map(|_| ()))))),
+                            }
+                            for ddof in [0.0, 1.0] {
+                                match guarded(|| (vmf.weighted_sum_axis(Axis(axis), &wf), vmf.weighted_mean_axis(Axis(axis), &wf), vmf.weighted_var_axis(Axis(axis), &wf, ddof), vmf.weighted_std_axis(Axis(axis), &wf, ddof))) {
+                                    Ok((Ok(rs), Ok(rm), Ok(rv), Ok(rsd))) => {
+                                        for j in 0..3usize {
+                                            let la = Array1::from(mf.index_axis(Axis(1 - axis), j).to_vec());
+                                            let (s1, m1, v1, sd1) = (la.weighted_sum(&wfo).unwrap(), la.weighted_mean(&wfo).unwrap(), la.weighted_var(&wfo, ddof).unwrap(), la.weighted_std(&wfo, ddof).unwrap());
+                                            let eqf = |a: f64, b: f64| a.to_bits() == b.to_bits() || (a.is_nan() && b.is_nan()) || a == b;
+                                            let ok = rs.len() == 3 && rm.len() == 3 && rv.len() == 3 && rsd.len() == 3 && eqf(rs[j], s1) && eqf(rm[j], m1) && eqf(rv[j], v1) && eqf(rsd[j], sd1);
+                                            lx.check(ok, "C18/axis-form-not-identical-to-lane-routine", || format!("{} (ddof {}): per-axis (sum, mean, var, std) = ({:?}, {:?}, {:?}, {:?}) but the whole-array routines on lane {} {:?} with weights {:?} give ({:e}, {:e}, {:e}, {:e})", what, ddof, rs, rm, rv, rsd, j, la, wfo, s1, m1, v1, sd1));
+                                            let lv = vmf.index_axis(Axis(1 - axis), j);
+                                            match guarded(|| (lv.weighted_sum(&wf), lv.weighted_mean(&wf), lv.weighted_var(&wf, ddof), lv.weighted_std(&wf, ddof))) {
+                                                Ok((Ok(s2), Ok(m2), Ok(v2), Ok(sd2))) => {
+                                                    let ok = rs.len() == 3 && rm.len() == 3 && rv.len() == 3 && rsd.len() == 3 && eqf(rs[j], s2) && eqf(rm[j], m2) && eqf(rv[j], v2) && eqf(rsd[j], sd2);
+                                                    lx.check(ok, "C18/axis-form-not-identical-to-lane-routine", || format!("{} (ddof {}): per-axis (sum, mean, var, std) = ({:?}, {:?}, {:?}, {:?}) but the whole-array routines on lane {} as it lies in the matrix ({:?}) with the same weights view {:?} give ({:e}, {:e}, {:e}, {:e})", what, ddof, rs, rm, rv, rsd, j, la, wfo, s2, m2, v2, sd2));
+                                                }
+                                                other => lx.fail("C18/axis-failed", || format!("{} (ddof {}): whole-array routines on lane view {} failed: {:?}", what, ddof, j, other)),
+                                            }
+                                            obs.push(v1.to_bits());
+                                        }
+                                    }
+                                    other => lx.fail("C18/axis-failed", || format!("{} (ddof {}): float axis forms failed: {:?}", what, ddof, other.map(|(a, b, c, d)| (a.map(|_| ()), b.map(|_| ()), c.map(|_| ()), d.map(|_| ()))))),
+                                }
+                            }
+                        }
+                    }
+                }
+                hash_of(&obs)
+            });
+        },
+    );
     rep.finish();
 }
